@@ -101,8 +101,9 @@ func combineContext(c *Ctx) {
 				got := P.PathCond(fn, bodyBlockOf(elem), h, nil)
 				only := len(got) == 1 && len(got[0]) == 1
 				if only {
-					for f := range got[0] {
-						only = strings.Contains(f, "eq?")
+					for f, set := range got[0] {
+						// eq?(other, nil) is zero when equal: the registration must sit on the "not nil" side
+						only = strings.Contains(f, "eq?") && set == an.SPos
 					}
 				}
 				q.add("COND", "every non-nil other context can cancel the result", only, pickS(only, "the registration is conditional on other != nil only", "some non-nil other context is skipped: its cancellation would not cancel the result ("+got.String()+")"), h)
@@ -134,7 +135,93 @@ func combineContext(c *Ctx) {
 			// the primary itself: only if it is already cancelled or no non-nil other exists
 			okp := isPrimary(v)
 			q.add("PROV", "otherwise the primary is returned unchanged", okp, "return value is the primary", r)
+			// (A) through primary.Err() != nil, or (B) through counter == 0 where the counter counts the non-nil others
+			why := ""
+			pifs, pnegs := P.IfsOn(fn, func(cond ssa.Value) bool {
+				b, ok := cond.(*ssa.BinOp)
+				if !ok || (b.Op != token.EQL && b.Op != token.NEQ) {
+					return false
+				}
+				return either(b, func(v ssa.Value) bool {
+					call, isC := v.(*ssa.Call)
+					return isC && call.Call.IsInvoke() && call.Call.Method.Name() == "Err" && isPrimary(call.Call.Value)
+				}, isNilConst)
+			})
+			for i, ifi := range pifs {
+				nn := 0
+				if pnegs[i] {
+					nn = 1
+				}
+				if stripNotV(ifi.Cond).(*ssa.BinOp).Op == token.EQL {
+					nn = 1 - nn
+				}
+				if q.onlyViaEdge(r, ifi, nn) {
+					why = "reached only through primary.Err() != nil"
+				}
+			}
+			if why == "" {
+				zifs, znegs := P.IfsOn(fn, func(cond ssa.Value) bool {
+					b, ok := cond.(*ssa.BinOp)
+					if !ok || (b.Op != token.EQL && b.Op != token.NEQ) {
+						return false
+					}
+					return either(b, func(v ssa.Value) bool { _, isPh := v.(*ssa.Phi); return isPh && isIntT(v) }, isZero)
+				})
+				for i, ifi := range zifs {
+					b := stripNotV(ifi.Cond).(*ssa.BinOp)
+					zs := 0
+					if znegs[i] {
+						zs = 1
+					}
+					if b.Op == token.NEQ {
+						zs = 1 - zs
+					}
+					ph, _ := b.X.(*ssa.Phi)
+					if ph == nil {
+						ph, _ = b.Y.(*ssa.Phi)
+					}
+					// the counter: starts at 0 and is incremented on the path of a non-nil, live other
+					counts := false
+					if ph != nil {
+						for _, e := range P.Sources(ph) {
+							if inc, isB := e.(*ssa.BinOp); isB && inc.Op == token.ADD {
+								errs := an.AllInstrs(fn, func(in ssa.Instruction) bool {
+									call, ok := in.(*ssa.Call)
+									return ok && call.Call.IsInvoke() && call.Call.Method.Name() == "Err" && !isPrimary(call.Call.Value)
+								})
+								if len(errs) > 0 && q.onlyAfterSuccess(errs[0], inc) && P.Before(fn, an.In(errs), inc) {
+									counts = true
+								}
+							}
+						}
+					}
+					if counts && q.onlyViaEdge(r, ifi, zs) {
+						why = "reached only through (number of non-nil, live others) == 0"
+					}
+				}
+			}
+			q.add("PATH", "the primary is returned unchanged only if it is cancelled or there is nothing to combine", why != "", pickS(why != "", why, "the primary context itself is returned although it is live and other contexts were given: their cancellation would not cancel the result"), r)
 		}
+	}
+	// an other context is used (Err, AfterFunc) only where it was found non-nil
+	for _, in := range an.AllInstrs(fn, func(in ssa.Instruction) bool {
+		call, ok := in.(*ssa.Call)
+		if !ok {
+			return false
+		}
+		if call.Call.IsInvoke() && !isPrimary(call.Call.Value) && (call.Call.Method.Name() == "Err" || call.Call.Method.Name() == "Done") {
+			return true
+		}
+		return P.CalleeName(&call.Call) == "context.AfterFunc" && len(call.Call.Args) == 2 && !isPrimary(call.Call.Args[0]) && call.Call.Args[0] != resultOf(main, 0)
+	}) {
+		call := in.(*ssa.Call)
+		recv := call.Call.Value
+		if !call.Call.IsInvoke() {
+			recv = call.Call.Args[0]
+		}
+		ifn, ns, found := q.nilTestOf(func(v ssa.Value) bool { return v == recv })
+		ok := found && q.onlyViaEdge(in, ifn, 1-ns)
+		q.add("PATH", "an other context is consulted only where it is not nil", ok, pickS(ok, "reached only through other != nil", "a nil entry of others is dereferenced, or non-nil entries are skipped: the nil test of the element is missing or inverted"), in)
 	}
 	// the pre-check examines EVERY other context: the loop that tests other.Err() is left only through its
 	// header (all inspected) or by returning the cancelled result - never by a break into the wiring code
@@ -441,4 +528,9 @@ func init() {
 
 func isBoolPtr(al *ssa.Alloc) bool {
 	return al.Type().Underlying().(*types.Pointer).Elem().String() == "bool"
+}
+
+func isIntT(v ssa.Value) bool {
+	b, ok := v.Type().Underlying().(*types.Basic)
+	return ok && b.Info()&types.IsInteger != 0
 }
